@@ -41,6 +41,8 @@ type RefResult struct {
 	NSteps int
 	// SubIn: the inputs every nested graph node was evaluated on (node key -> inputs)
 	SubIn map[string][]V
+	// Contrib: top-level nodes whose output data flowed (transitively) into the value delivered to END
+	Contrib map[string]bool
 }
 
 type RefEnv struct {
@@ -181,6 +183,14 @@ func evalPregel(g *GraphSpec, in V, env *RefEnv, res *RefResult, top bool) {
 		maxSteps = env.MaxSteps
 	}
 	pending := map[string]map[string]V{}
+	prov := map[string]map[string]map[string]bool{} // to -> from -> provenance of that value
+	outProv := map[string]map[string]bool{}         // node -> provenance of its current output
+	setProv := func(to, from string) {
+		if prov[to] == nil {
+			prov[to] = map[string]map[string]bool{}
+		}
+		prov[to][from] = outProv[from]
+	}
 	deliver := func(from string, out V) {
 		for i := range g.Edges {
 			e := &g.Edges[i]
@@ -191,6 +201,7 @@ func evalPregel(g *GraphSpec, in V, env *RefEnv, res *RefResult, top bool) {
 				pending[e.To] = map[string]V{}
 			}
 			pending[e.To][from] = out
+			setProv(e.To, from)
 		}
 		for i := range g.Branches {
 			b := &g.Branches[i]
@@ -202,6 +213,7 @@ func evalPregel(g *GraphSpec, in V, env *RefEnv, res *RefResult, top bool) {
 					pending[t] = map[string]V{}
 				}
 				pending[t][from] = out
+				setProv(t, from)
 			}
 		}
 	}
@@ -237,6 +249,14 @@ func evalPregel(g *GraphSpec, in V, env *RefEnv, res *RefResult, top bool) {
 			res.Out = v
 			res.OthersAtEnd = len(ready) > 1
 			res.NSteps = step
+			if top {
+				res.Contrib = map[string]bool{}
+				for _, p := range prov[END] {
+					for k := range p {
+						res.Contrib[k] = true
+					}
+				}
+			}
 			return
 		}
 		if len(ready) == 0 {
@@ -249,6 +269,23 @@ func evalPregel(g *GraphSpec, in V, env *RefEnv, res *RefResult, top bool) {
 			return
 		}
 		pending = map[string]map[string]V{}
+		inProv := map[string]map[string]bool{}
+		for _, k := range ready {
+			u := map[string]bool{k: true}
+			// a nested graph is a provenance barrier: whether it uses its input is not tracked
+			if n := g.Node(k); n == nil || n.Kind != Sub {
+				for _, p := range prov[k] {
+					for x := range p {
+						u[x] = true
+					}
+				}
+			}
+			inProv[k] = u
+		}
+		prov = map[string]map[string]map[string]bool{}
+		for _, k := range ready {
+			outProv[k] = inProv[k]
+		}
 		var stepExecs []RefExec
 		outs := map[string]V{}
 		failed, failedNode := "", ""
@@ -447,6 +484,7 @@ func evalAllPred(g *GraphSpec, in V, env *RefEnv, res *RefResult, top bool) {
 		return g.Mode != Workflow && chosen[p][n]
 	}
 	evalBranches(START)
+	contrib := map[string]map[string]bool{START: {}}
 	var failed, failedNode string
 	for _, k := range order {
 		if k == START {
@@ -498,12 +536,25 @@ func evalAllPred(g *GraphSpec, in V, env *RefEnv, res *RefResult, top bool) {
 			}
 			input = m
 		}
+		contrib[k] = map[string]bool{k: true}
+		if n := g.Node(k); n == nil || n.Kind != Sub {
+			for _, d := range froms {
+				for x := range contrib[d] {
+					contrib[k][x] = true
+				}
+			}
+		}
 		if k == END {
 			if failed != "" {
 				break
 			}
 			res.Out = input
 			res.Ran[END] = true
+			if top {
+				res.Contrib = contrib[END]
+				delete(res.Contrib, END)
+				delete(res.Contrib, START)
+			}
 			break
 		}
 		n := g.Node(k)
